@@ -84,6 +84,17 @@ def oracle(meta, kw, r):
                 yi = stored[tq]
                 if any(abs(a - b) > 1e-9 * scale for a, b in zip(val, yi)):
                     out.append(("sample-mismatch", "sol(t_i) differs from the stored sample at t_i=%r: %r vs %r" % (tq, val, yi)))
+    # sol_many answers every time as sol does, whatever the order of the request (seeded change C06-c reused the previous
+    # request's segment); "to rounding", since two segments meeting at a joint may both answer
+    for (tag, tq, val) in r.get("solm", []):
+        ref = vals.get(tq)
+        if ref is not None and any(not (abs(a - b) <= 1e-9 * scale) for a, b in zip(val, ref)):
+            out.append(("sol-many-differs", "sol_many (%s order) gives %r at t=%r where sol gives %r" %
+                        ("given" if tag == "f" else "reversed", val, tq, ref)))
+            break
+    sm = r.get("solm_status", {})
+    if vals and any(k in sm and sm[k][0] != "ok" for k in ("f", "r")):
+        out.append(("sol-many-gap", "sol_many failed (%r) on times that sol answers" % (sm,)))
     ss = r.get("selfsol")
     if ss is not None and kw.get("t_eval") is None:
         if ss[0] > 0:
@@ -108,5 +119,5 @@ def check():
         [oracle, oracles.oracle_shapes], TB,
         "two-pass: a plain run reveals the accepted-step grid; the second run (dense_output on, optionally events / step budget) "
         "queries sol at stored sample times, one ulp either side of interior step boundaries, and clearly outside the span; "
-        "sol(t_i) must reproduce y_i, must not jump across boundaries, must fail outside, NotEnabled when disabled; plus the "
+        "sol(t_i) must reproduce y_i, must not jump across boundaries, must fail outside, NotEnabled when disabled; sol_many over the same times in the given and the reversed order must agree with sol; plus the "
         "zero-length run for every method; all runs replayed bit-for-bit on the model (incl. every sol value); 6 methods, both directions")
